@@ -146,6 +146,7 @@ Proof.
   - destruct (_ && _); [|apply Keep_refl].
     eapply Keep_trans; [apply Keep_upd_node|]. eapply Keep_trans; [apply Keep_notify|apply Keep_emit].
   - destruct (_ && _); [apply Keep_sched_at|apply Keep_refl].
+  - destruct (_ && _); [apply Keep_sched_at|apply Keep_refl].
 Qed.
 
 Lemma Keep_do_ops T g i st : forall os opi w, Keep w (do_ops T g i st opi os w).
@@ -373,6 +374,7 @@ Proof.
   - destruct (c_sched _); auto. destruct (pop_tag _ _ _). apply root_cache_upd_node with (w := w); auto.
   - destruct (c_sched _); auto. apply root_cache_upd_node with (w := w); auto.
   - destruct (_ && _); auto. apply root_cache_notify_graphs with (w := upd_node g i _ w); auto using root_cache_upd_node.
+  - destruct (_ && _); auto using root_cache_sched_at.
   - destruct (_ && _); auto using root_cache_sched_at.
 Qed.
 
@@ -946,6 +948,7 @@ Proof.
   - destruct (_ && _); [|apply ErrEq_refl].
     eapply ErrEq_trans; [|apply ErrEq_emit]. eapply ErrEq_trans; [|apply ErrEq_notify_graphs].
     apply ErrEq_upd_node; reflexivity.
+  - destruct (_ && _); [apply ErrEq_sched_at|apply ErrEq_refl].
   - destruct (_ && _); [apply ErrEq_sched_at|apply ErrEq_refl].
 Qed.
 
